@@ -258,6 +258,31 @@ def conformance():
                     b2 = (a + 100)
                     if not np.array_equal(dump(cat([conc(a), conc(b2), conc(a)], dim)), np.concatenate([a, b2, a], dim)):
                         bad.append(("cat", shape, dim))
+        # advanced indexing: one index per dimension, integer arrays (broadcast together) and plain integers
+        rs = np.random.RandomState(1)
+        for shape in [(3,), (2, 3), (2, 3, 2)]:
+            a = np.arange(int(np.prod(shape)), dtype=float).reshape(shape)
+            for ishapes in [[(2,)] * len(shape), [(2, 1), (1, 3), (2, 3)][: len(shape)], [(), (4,), (1, 4)][: len(shape)], [(3, 1, 1), (1, 2, 1), (1, 1, 2)][: len(shape)]]:
+                for as_int in itertools.product([False, True], repeat=len(shape)):
+                    inds, conc_inds = [], []
+                    for dim, (ish, ai) in enumerate(zip(ishapes, as_int)):
+                        if ai:
+                            v = int(rs.randint(shape[dim]))
+                            inds.append(v)
+                            conc_inds.append(v)
+                        else:
+                            arr = rs.randint(shape[dim], size=ish)
+                            inds.append(arr)
+                            conc_inds.append(SArr(arr.shape, lambda idx, arr=arr: int(arr[tuple(idx)]), "int"))
+                    if all(as_int):
+                        continue
+                    try:
+                        exp = a[tuple(inds)]
+                    except IndexError:
+                        continue
+                    got = _advanced_index(conc(a), tuple(conc_inds))
+                    if tuple(got.shape) != exp.shape or not np.array_equal(dump(got), exp):
+                        bad.append(("advanced_index", shape, ishapes, as_int))
     finally:
         core.CUR = None
     return bad
@@ -312,7 +337,19 @@ def _basic_index(x, index):
 def _advanced_index(x, index):
     """numpy advanced indexing with one integer array per dimension (all dimensions indexed): the index arrays are
     broadcast together and result[idx] = x[ind_0[idx], ..., ind_k[idx]] (numpy indexing documentation)."""
-    if len(index) != len(x.shape) or not all(isinstance(i, SArr) for i in index):
+    # an integer among index arrays is a 0-d index array (numpy broadcasts it); it must be in range
+    cooked = []
+    for pos, i in enumerate(index):
+        if isinstance(i, SArr):
+            cooked.append(i)
+        elif isinstance(i, (int, SV)) and not isinstance(i, bool) and pos < len(x.shape):
+            if not truth(And(0 <= i, i < x.shape[pos])):
+                raise Declined("IndexError", "index out of bounds")
+            cooked.append(SArr((), lambda idx, v=i: v, "int"))
+        else:
+            raise Unsupported("advanced indexing form outside the model")
+    index = tuple(cooked)
+    if len(index) != len(x.shape):
         raise Unsupported("advanced indexing form outside the model")
     n = max(len(i.shape) for i in index)
     shape = [1] * n
@@ -349,7 +386,7 @@ def _advanced_index(x, index):
 
 
 def _getitem(x, index):
-    if isinstance(index, tuple) and index and all(isinstance(i, SArr) for i in index):
+    if isinstance(index, tuple) and index and any(isinstance(i, SArr) for i in index) and all(isinstance(i, (SArr, int, SV)) and not isinstance(i, bool) for i in index):
         return _advanced_index(x, index)
     return _basic_index(x, index)
 
